@@ -73,6 +73,9 @@ func genC05(g *Gen, n int) {
 	for _, fs := range c05SizeLimitLists(false) {
 		c05EmitCreate(g, "example.com/m", "v1.0.0", fs, "size-limited-name-placement")
 	}
+	for _, fs := range c05AncestorClashLists() {
+		c05EmitCreate(g, "example.com/m", "v1.0.0", fs, "ancestor-clash")
+	}
 	for _, fs := range c05FoldOrbitLists(g.Rand, false) {
 		c05EmitCreate(g, "example.com/m", "v1.0.0", fs, "fold-orbit-pair")
 	}
@@ -143,6 +146,34 @@ func c05SizeLimitLists(oracle bool) [][]*zipuFile {
 				fs = append(fs, small("LICENSE", "license text"))
 			}
 			out = append(out, fs)
+		}
+	}
+	return out
+}
+
+// c05AncestorClashLists: a name that is a regular file in one entry and an ANCESTOR directory of
+// another, at every distance (parent, grandparent, ... up to four levels above the deeper file), at the
+// root and below a directory, in both list orders, spelled identically and as a case variant; and two
+// directory names that differ only in case, at the same distances above their files.  Such lists must
+// not be created (the archive could not be extracted: the name would have to be a file and a
+// directory).  The random lists produce the parent case through a list-level mutation and reach the
+// higher levels only by luck (a handful of lists per run), so the sweep makes the class systematic.
+func c05AncestorClashLists() [][]*zipuFile {
+	small := func(p, c string) *zipuFile {
+		return &zipuFile{path: p, mode: 'r', size: int64(len(c)), content: []byte(c)}
+	}
+	gomod := small("go.mod", "module example.com/m\n")
+	var out [][]*zipuFile
+	below := []string{"c.go", "b/c.go", "b/d/c.go", "b/d/e/c.go"}
+	for _, top := range [][2]string{{"a", "a"}, {"cmd/tool", "cmd/tool"}, {"A", "a"}, {"cmd/Tool", "cmd/tool"}} {
+		for _, b := range below {
+			file, deep := small(top[0], "x"), small(top[1]+"/"+b, "package c\n")
+			out = append(out, []*zipuFile{gomod, file, deep}, []*zipuFile{gomod, deep, file})
+		}
+	}
+	for _, top := range [][2]string{{"Pkg", "pkg"}, {"r/pkg", "r/pKg"}} {
+		for _, b := range below {
+			out = append(out, []*zipuFile{gomod, small(top[0]+"/x"+b, "x"), small(top[1]+"/y"+b, "y")})
 		}
 	}
 	return out
@@ -253,6 +284,9 @@ func oracleC05(g *Gen, n int) {
 		c05Check(g, "example.com/m", "v1.0.0", fs)
 	}
 	for _, fs := range c05SizeLimitLists(true) {
+		c05Check(g, "example.com/m", "v1.0.0", fs)
+	}
+	for _, fs := range c05AncestorClashLists() {
 		c05Check(g, "example.com/m", "v1.0.0", fs)
 	}
 	for _, fs := range c05FoldOrbitLists(g.Rand, true) {
